@@ -53,6 +53,8 @@ def gen_sm(rng, corp, plain):
         c.notes = rng.choice(["0000\n0000\n0000\n0000", "1000\n0100\n0010\n0001\n,\n2000\n0000\n3000\n0000", "00\n11"])
         c.meter = str(rng.randint(1, 15))
         c.description = cc.rand_value(rng, 6).strip()
+        if rng.random() < 0.35:
+            c.extradata = ["extra component", "0000"][:rng.randint(1, 2)]       # (an SM chart may carry components beyond the sixth)
         sf.charts.append(c)
     return sf
 
